@@ -312,6 +312,30 @@ def construction_and_sharing(ctx):
     later = BeautifulSoup('<i class="x y"></i><a rel="n m"></a>', "html.parser")
     fresh = soup.new_tag("u", attrs={"class": "x y"})
     obs = (list(soup.b["class"]), list(soup.link["rel"]), list(later.i["class"]), list(later.a["rel"]), list(fresh["class"]))
+    # ... and a copy owns its lists too, whatever kind of list the value is (AttributeValueList from a parse, a plain Python list
+    # assigned by the caller, a list given to new_tag)
+    import copy as _cp
+    for how in ("parsed", "assigned-plain-list", "new_tag-attrs", "assigned-tuple-free"):
+        if how == "parsed":
+            t = BeautifulSoup('<p class="a b"><i class="c d"></i></p>', "html.parser").p
+        elif how == "assigned-plain-list":
+            t = BeautifulSoup("<p><i></i></p>", "html.parser").p
+            t["class"] = ["a", "b"]; t.i["class"] = ["c", "d"]
+        elif how == "new_tag-attrs":
+            sp = BeautifulSoup("", "html.parser")
+            t = sp.new_tag("p", attrs={"class": ["a", "b"]}); t.append(sp.new_tag("i", attrs={"class": ["c", "d"]}))
+        else:
+            t = BeautifulSoup("<p><i></i></p>", "html.parser").p
+            t.attrs["class"] = ["a", "b"]; t.i.attrs["class"] = ["c", "d"]
+        for cname, mk in (("copy.copy", _cp.copy), ("copy.deepcopy", _cp.deepcopy)):
+            c = mk(t)
+            c["class"].append("zz"); c.i["class"].clear()
+            obs2 = (list(t["class"]), list(t.i["class"]), t.decode())
+            ctx.case(("list-ownership-copy", how, cname))
+            if obs2[:2] != (["a", "b"], ["c", "d"]) or 'zz' in obs2[2]:
+                ctx.fail({"values": how, "copied_with": cname, "edit": "copy['class'].append('zz'); copy.i['class'].clear()"},
+                         "an in-place edit of a copy's attribute value list shows in the original", obs2, (["a", "b"], ["c", "d"]),
+                         tag="list-ownership")
     ctx.case(("list-ownership",))
     if obs != (["x", "y"], ["n", "m"], ["x", "y"], ["n", "m"], ["x", "y"]):
         ctx.fail({"edit": "a['class'].append('zz'); a['rel'].clear() on one of several tags with textually identical values"},
@@ -337,8 +361,30 @@ def dup_cases(ctx):
         for al in lists:
             markup = "<a " + " ".join(k if v is None else '%s="%s"' % (k, v) for k, v in al) + "></a>"
             kw = {} if pname == "default" else {"on_duplicate_attribute": pol}
+            # the policy combined with the other parser options a caller may give at the same time (the caller's dict is his own)
+            combo = len(cmds) % 4
+            caller_kwargs = {"convert_charrefs": False}
+            if combo == 1:
+                kw["parser_kwargs"] = caller_kwargs
+            elif combo == 2:
+                kw["parser_kwargs"] = {}
+            elif combo == 3:
+                kw["parser_args"] = []
+                kw["store_line_numbers"] = False
             try:
                 soup = BeautifulSoup(markup, "html.parser", multi_valued_attributes=None, **kw)
+                if combo == 1 and len(al) >= 2 and len(cmds) % 3 == 0:
+                    # the caller uses his dict again, this time without naming a policy: the documented default (replace) applies
+                    again = BeautifulSoup(markup, "html.parser", multi_valued_attributes=None, parser_kwargs=caller_kwargs)
+                    last = {}
+                    for k, v in al:
+                        last[k] = "" if v is None else v
+                    ctx.case(("dup-shared-kwargs", pname, repr(al)))
+                    if dict(again.a.attrs) != last:
+                        ctx.fail({"policy_of_the_earlier_parse": pname, "attributes": al,
+                                  "calls": "BeautifulSoup(m, 'html.parser', parser_kwargs=d, on_duplicate_attribute=P); BeautifulSoup(m, 'html.parser', parser_kwargs=d)"},
+                                 "a later parse that names no policy does not use the default: the earlier parse's policy travelled in the caller's parser_kwargs dict",
+                                 dict(again.a.attrs), last, tag="shared-parser-kwargs")
                 got = list(soup.a.attrs.items())
             except Exception as e:
                 got = "EXC:" + type(e).__name__
